@@ -82,6 +82,10 @@ func c20ExprPatterns() []c20Pat {
 		{"dup-key-thrice", func(a, b string) string { return "{ kk = 1, kk = 2, kk = " + a + " }" }, m(5, 2)},
 		{"near-diff-keys", func(a, b string) string { return "{ k1 = " + a + ", k2 = 2, k3 = 3 }" }, m()},
 		{"near-nested-same-key", func(a, b string) string { return "{ k1 = { k1 = " + a + " }, k2 = 2 }" }, m()},
+		{"near-field-vs-variable-key", func(a, b string) string { return "{ " + a + " = 1, [" + a + "] = 2 }" }, m()},
+		{"near-variable-vs-field-key", func(a, b string) string { return "{ [" + a + "] = 1, " + a + " = " + b + " }" }, m()},
+		{"near-variable-vs-string-key", func(a, b string) string { return "{ [" + a + "] = 1, [\"" + a + "\"] = 2, k3 = 3 }" }, m()},
+		{"dc-variable-key-twice", func(a, b string) string { return "{ [" + a + "] = 1, [" + a + "] = 2 }" }, m(5, expDC)},
 		{"dc-string-vs-name-key", func(a, b string) string { return "{ k1 = 1, [\"k1\"] = " + a + " }" }, m(5, expDC)},
 		{"dc-numeric-keys", func(a, b string) string { return "{ [1] = " + a + ", [1] = 2 }" }, m(5, expDC)},
 		{"dc-num-vs-string-key", func(a, b string) string { return "{ [1] = " + a + ", [\"1\"] = 2 }" }, m(5, expDC)},
